@@ -21,7 +21,13 @@ def tissues():
         "adhering": [tc.cell(0, 0.0, level=2, growth=1e-11), tc.cell(1, d, level=2)],
         "overlap_types": [tc.cell(0, 0.0, level=2), tc.cell(1, 1.6 * R, level=1, ctype=2, nft=1), tc.cell(2, 0.0, level=1, ctype=4, nft=1, y=1.7 * R)],
         "ecm": [tc.cell(0, 0.0, level=2, growth=2e-11), tc.cell(1, 1.7 * R, level=2, ctype=1, nft=1)],
+        # a history with a division (iteration 5): the division axis, the cut and the remeshing of the daughters happen at both places
+        # (a generic ellipsoid: on the symmetric test sphere the division plane passes exactly through nodes, a tie decided by rounding)
+        "dividing": [dict(tc.cell(0, 0.0, level=2, growth=1e-11), jitter=0.04, stretch=[1.35, 1.0, 0.85]), tc.cell(1, 3.5 * R, level=1)],
     }
+
+
+SCRIPTS = {"dividing": [{"iter": 5, "do": "ready", "cell": 0}]}
 
 
 def shifted(cells, t):
@@ -66,7 +72,7 @@ def run(tier, seed, replay=None):
     for variant, vpairs in plan:
         scns = []
         for name, j, t in vpairs:
-            base = tc.scenario("%s_%d_%s_A" % (name, j, variant), T[name], [], T_ns=100 * niter, threads=1, seed=seed, level_lmin=0.2531 * R)     # no edge length of the symmetric test spheres ties with a threshold
+            base = tc.scenario("%s_%d_%s_A" % (name, j, variant), T[name], SCRIPTS.get(name, []), T_ns=100 * niter, threads=1, seed=seed, level_lmin=0.2531 * R)     # no edge length of the symmetric test spheres ties with a threshold
             base["dump_positions"] = True
             sh = dict(base, name="%s_%d_%s_B" % (name, j, variant), cells=shifted(T[name], t))
             scns += [base, sh]
